@@ -389,7 +389,7 @@ func c14ChunkEOF(c *Ctx) {
 			return false
 		}
 		ok := false
-		allInstrs(g, false, func(_ *ssa.Function, ins ssa.Instruction) {
+		allInstrs(g, true, func(_ *ssa.Function, ins ssa.Instruction) {
 			switch x := ins.(type) {
 			case ssa.CallInstruction:
 				if calleeName(x) == "io.(*SectionReader).Size" {
@@ -408,7 +408,88 @@ func c14ChunkEOF(c *Ctx) {
 	// the error results of fn, followed into the unexported helpers of the same
 	// type that hand it their own stream errors
 	var scan func(fn *ssa.Function, depth int)
+	var scanValue func(rv ssa.Value, fn *ssa.Function, depth int, seen map[ssa.Value]bool)
+	// the error operands of a wrapping fmt.Errorf("…%w", err)
+	wrapped := func(call ssa.CallInstruction) []ssa.Value {
+		var out []ssa.Value
+		if calleeName(call) != "fmt.Errorf" || len(call.Common().Args) < 2 {
+			return nil
+		}
+		sl, ok := call.Common().Args[1].(*ssa.Slice)
+		if !ok {
+			return nil
+		}
+		arr, ok := sl.X.(*ssa.Alloc)
+		if !ok {
+			return nil
+		}
+		for _, r := range *arr.Referrers() {
+			ia, ok := r.(*ssa.IndexAddr)
+			if !ok {
+				continue
+			}
+			for _, rr := range *ia.Referrers() {
+				st, ok := rr.(*ssa.Store)
+				if !ok || st.Addr != ssa.Value(ia) {
+					continue
+				}
+				v := st.Val
+				switch x := v.(type) {
+				case *ssa.MakeInterface:
+					v = x.X
+				case *ssa.ChangeInterface:
+					v = x.X
+				}
+				if isErrorType(v.Type()) {
+					out = append(out, v)
+				}
+			}
+		}
+		return out
+	}
+	scanValue = func(rv ssa.Value, fn *ssa.Function, depth int, seen map[ssa.Value]bool) {
+		if seen[rv] {
+			return
+		}
+		seen[rv] = true
+		for _, o := range Origins(rv, OriginOpts{}) {
+			if o.Kind != OrgCall {
+				continue
+			}
+			// a wrapped error is the error
+			if ws := wrapped(o.Call); len(ws) > 0 {
+				for _, w := range ws {
+					scanValue(w, fn, depth, seen)
+				}
+				continue
+			}
+			callee := o.Call.Common().StaticCallee()
+			// an error produced by a read of the stream, returned as is?
+			if !io.CallMayFail(o.Call) {
+				continue
+			}
+			if callee != nil && vets(callee) {
+				n++
+				continue
+			}
+			if callee != nil && depth < 3 && callee.Blocks != nil && callee.Signature.Recv() != nil && fn.Signature.Recv() != nil &&
+				types.Identical(callee.Signature.Recv().Type(), fn.Signature.Recv().Type()) && callee.Object() != nil && !callee.Object().Exported() && callee != fn {
+				before := n
+				scan(callee, depth+1)
+				if n > before {
+					continue
+				}
+			}
+			n++
+			bad = append(bad, calleeName(o.Call)+" ("+p.Pos(o.Call.Pos())+")")
+		}
+	}
+	scanned := map[*ssa.Function]bool{}
 	scan = func(fn *ssa.Function, depth int) {
+		if scanned[fn] {
+			return
+		}
+		scanned[fn] = true
 		for _, ret := range returnsOf(fn) {
 			if len(ret.Results) == 0 {
 				continue
@@ -417,30 +498,7 @@ func c14ChunkEOF(c *Ctx) {
 			if rv == nil || isNilConst(rv) || !isErrorType(rv.Type()) {
 				continue
 			}
-			for _, o := range Origins(rv, OriginOpts{}) {
-				if o.Kind != OrgCall {
-					continue
-				}
-				callee := o.Call.Common().StaticCallee()
-				// an error produced by a read of the stream, returned as is?
-				if !io.CallMayFail(o.Call) {
-					continue
-				}
-				if callee != nil && vets(callee) {
-					n++
-					continue
-				}
-				if callee != nil && depth < 2 && callee.Blocks != nil && callee.Signature.Recv() != nil && fn.Signature.Recv() != nil &&
-					types.Identical(callee.Signature.Recv().Type(), fn.Signature.Recv().Type()) && callee.Object() != nil && !callee.Object().Exported() && callee != fn {
-					before := n
-					scan(callee, depth+1)
-					if n > before {
-						continue
-					}
-				}
-				n++
-				bad = append(bad, calleeName(o.Call)+" ("+p.Pos(o.Call.Pos())+")")
-			}
+			scanValue(rv, fn, depth, map[ssa.Value]bool{})
 		}
 	}
 	scan(fn, 0)
